@@ -43,6 +43,11 @@ def main():
             facts.write_facts()
         except facts.ExtractError as err:
             chk.proof_broken.append({'facts_extractor': str(err)})
+        except Exception as err:
+            # the translator met source it cannot read (syntax it does not know): the tie to the source is
+            # broken, which is reported as such; the checks still run against the last generated facts
+            chk.proof_broken.append({'facts_extractor': 'unexpected %s: %s' % (type(err).__name__, str(err)[:200]),
+                                     'traceback': traceback.format_exc()[-1500:]})
         if args.replay:
             return mod.replay(chk, args.replay)
         chk.clean_replays()
